@@ -106,6 +106,10 @@ def handle : Handler := fun op a => do
     let r := judge (← decOverrides (← field a "ov")) (← decOp (← field a "op")) (← decContainers (← field a "req"))
       (← decContainers (optField a "base"))
     return .arr (r.map encVerdict)
+  | "worker_session" =>
+    let cfg ← (← asArr (← field a "cfg")).mapM asNat
+    let prog := match (← asStr (← field a "publish")) with | "first" => publishFirst cfg | _ => publishLast cfg
+    return .arr ((workerSession cfg prog (← asNat (← field a "t"))).map jnat)
   | _ => .error s!"unknown op {op}"
 
 def main : IO Unit := run handle
